@@ -22,13 +22,30 @@ def quiet():
 
 
 def make_geo(g):
-    key = (g['nx'], g['ny'], g['nz'], g['atmos_type'], g['convention'], g.get('block_order'))
+    key = (g['nx'], g['ny'], g['nz'], g['atmos_type'], g['convention'], g.get('block_order'), tuple(g.get('split', ())))
     if key not in _geo_cache:
         import mulgrids
         with quiet():
-            _geo_cache[key] = mulgrids.mulgrid().rectangular([10.] * g['nx'], [12.] * g['ny'], [5.] * g['nz'], convention=g['convention'],
-                                                              atmos_type=g['atmos_type'], block_order=g.get('block_order'))
+            geo = mulgrids.mulgrid().rectangular([10.] * g['nx'], [12.] * g['ny'], [5.] * g['nz'], convention=g['convention'],
+                                                 atmos_type=g['atmos_type'], block_order=g.get('block_order'))
+            cols = [c.name for c in geo.columnlist]
+            for k in g.get('split', ()):                    # quadrilateral column -> two triangles (6-node blocks for the dmplex order)
+                c = geo.column[cols[k % len(cols)]]
+                if c.num_nodes == 4: geo.split_column(c.name, c.node[0].name)
+            if g.get('split'): geo.setup_block_name_index(); geo.setup_block_connection_name_index()
+        _geo_cache[key] = geo
     return _geo_cache[key]
+
+
+def geom_wire(geo):
+    """the geometry op of the driver: order tag, atmosphere block names, underground (name:nodes) in layer/column order"""
+    natm = geo.num_atmosphere_blocks
+    atm = []
+    if geo.num_layers > 0:
+        if geo.atmosphere_type == 0: atm = [geo.block_name(geo.layerlist[0].name, geo.atmosphere_column_name)]
+        elif geo.atmosphere_type == 1: atm = [geo.block_name(geo.layerlist[0].name, c.name) for c in geo.columnlist]
+    und = [(geo.block_name(l.name, c.name), 2 * c.num_nodes) for l in geo.layerlist[1:] for c in geo.columnlist if c.surface > l.bottom]
+    return ['bnl', geo.block_order or 'none', ','.join(hx(n) for n in atm), ','.join('%s:%d' % (hx(n), k) for n, k in und)]
 
 
 # ------------------------------------------------------------------ spec generation (conversions)
@@ -145,6 +162,8 @@ def gen_conv_spec(rng, i):
     else:
         s['hist'] = hist_spec() if bits >> 11 & 1 else None
         s['short'] = short_spec() if rng.random() < 0.15 else None
+    # a TOUGH2 file whose FOFT / COFT / GOFT sections precede ELEME (the history lists are then read as bare names)
+    if flavour == 'TOUGH2' and s['hist'] is not None and rng.random() < 0.35: s['prep'] = 'histfirst'
     # operation
     r = rng.random()
     if r < 0.2:
@@ -231,15 +250,33 @@ def build_conv(spec, tmpdir):
         dat.history_block = [bitem(x) for x in h['block']]
         dat.history_connection = [citem(x) for x in h['connection']]
         dat.history_generator = [bitem(x) for x in h['generator']]
-    if spec['prep'] in ('written', 'reread'):
+    if spec['prep'] in ('written', 'reread', 'histfirst'):
         keep = dat.filename
         path = os.path.join(tmpdir, 'prep.dat')
         with quiet():
             dat.write(path)
-            if spec['prep'] == 'reread':
+            if spec['prep'] == 'histfirst': move_history_first(path)
+            if spec['prep'] != 'written':
                 dat = T.t2data(path)
         dat.filename = keep
     return dat, geo
+
+
+def move_history_first(path):
+    """moves the FOFT, COFT and GOFT sections of a data file to just before ELEME"""
+    lines = open(path).read().split('\n')
+    moved, rest, i = [], [], 0
+    while i < len(lines):
+        if lines[i][:5].strip() in ('FOFT', 'COFT', 'GOFT'):
+            while i < len(lines) and lines[i].strip():
+                moved.append(lines[i]); i += 1
+            if i < len(lines): moved.append(lines[i]); i += 1
+        else:
+            rest.append(lines[i]); i += 1
+    heads = [l[:5] for l in rest]
+    if 'ELEME' in heads and moved:
+        k = heads.index('ELEME')
+        open(path, 'w').write('\n'.join(rest[:k] + moved + rest[k:]))
 
 
 # ------------------------------------------------------------------ abstract object + wire format
@@ -450,7 +487,20 @@ def gen_export_spec(rng, i):
             g.update({'ltab': n, 'time': [float(j) * 10. for j in range(n)], 'rate': [float(j) + 1. for j in range(n)]})
         gens.append(g)
     s['gens'] = gens
+    # triangular columns (6-node blocks), INCON / INDOM entries (value k stands for primaries [1e5 + 1e4 k, 20 + k, ...])
+    if rng.random() < 0.35: geo['split'] = [rng.randrange(6) for _ in range(rng.choice([1, 1, 2]))]
+    r = rng.random()
+    s['incon'] = [[rng.randrange(nblk) if rng.random() < 0.9 else -1, rng.choice([1, 2, 3])] for _ in range(rng.choice([1, 2, 3]))] if r < 0.4 else []
+    s['indom'] = [[rng.randrange(4), rng.choice([4, 5])] for _ in range(rng.choice([1, 2]))] if 0.25 < r < 0.6 else []
     return s
+
+
+def value_vector(k, n=4):
+    return [1.0e5 + 1.0e4 * k, 20.0 + k, 0.5e4, 1.0e-6][:n]
+
+
+def value_id(p):
+    return int(round((float(p) - 1.0e5) / 1.0e4))
 
 
 def build_export(spec):
@@ -493,6 +543,11 @@ def build_export(spec):
                 if k in g: kw[k] = list(g[k])
             o = T.t2generator(block=block_name(dat, g['block']), **kw)
         objs.append(o); dat.add_generator(o)
+    nv = max(spec['ninc'], 2)
+    for idx, k in spec.get('incon', []):
+        dat.incon[block_name(dat, idx)] = [None, value_vector(k, nv)]
+    for ridx, k in spec.get('indom', []):
+        if dat.grid.rocktypelist: dat.indom[dat.grid.rocktypelist[ridx % len(dat.grid.rocktypelist)].name] = value_vector(k, nv)
     return dat, geo, {'atmos_volume': spec['atmos_volume'], 'eos': spec['eos_arg'], 'mesh_coords': 'xyz'}
 
 
@@ -505,7 +560,9 @@ def export_fields(dat, geo, spec):
     except Exception: dok = False
     return [','.join(hx(n) for n in geo.block_name_list), '%d' % geo.num_atmosphere_blocks, '%d:%d' % float(spec['atmos_volume']).as_integer_ratio(),
             '-' if e is None else ('I%d' % e if isinstance(e, int) else 'S' + e.encode('latin-1').hex()),
-            '%d' % len(dat.parameter['default_incons']), '1' if dok else '0']
+            '%d' % len(dat.parameter['default_incons']), '1' if dok else '0', '0',
+            ','.join('%s:%d' % (hx(k), value_id(v[0])) for k, v in dat.indom.items()),
+            ','.join('%s:%d' % (hx(k), value_id(v[1][0])) for k, v in dat.incon.items())]
 
 
 def run_export(dat, geo, kw):
@@ -522,10 +579,27 @@ def run_export(dat, geo, kw):
         res['json_where'], res['json_line'] = fr.name, (fr.line or '')
     def cells_line(types): return 'OK\t' + ';'.join(','.join('%d' % c for c in t['cells']) for t in types)
     def src_line(srcs): return 'OK\t' + ','.join('%s:%s' % (hx(s['name']), 'N' if s.get('cell') is None else '%d' % s['cell']) for s in srcs)
+    def init_line(ini, n):
+        """one value id per underground block (a uniform 'primary' vector expanded)"""
+        if 'primary' not in ini: return None
+        p = ini['primary']
+        rows = [p] * n if (len(p) == 0 or not isinstance(p[0], (list, tuple))) else p
+        return 'OK\t' + ','.join('%d' % value_id(r[0]) for r in rows)
+    def bdy_pairs(bl):
+        """sorted (value id, interior cell) pairs over all faces of all boundaries (merging of boundaries and faces aside)"""
+        out = []
+        for bc in bl:
+            faces = bc['faces'] if isinstance(bc['faces'], list) else [bc['faces']]
+            for f in faces: out += [(value_id(bc['primary'][0]), int(c)) for c in f['cells']]
+        return sorted(out)
+    nund = len(geo.block_name_list) - geo.num_atmosphere_blocks
+    res['init'] = res['bdy'] = None
     if j is not None:
         res['eos'] = 'OK\t%s\t%d' % (hx(j['eos']['name']), 1 if 'tracer' in j else 0)
         res['rocks'] = cells_line(j['rock']['types'])
         res['srcs'] = src_line(j.get('source', []))
+        res['init'] = init_line(j.get('initial', {}), nund)
+        res['bdy'] = bdy_pairs(j.get('boundaries', []))
         res['json'] = j
         return res
     eosname, tracer = 'we', None
@@ -542,4 +616,19 @@ def run_export(dat, geo, kw):
         with quiet(): gj = dat.generators_json(geo, eosname, tracer)
         res['srcs'] = src_line(gj.get('source', []))
     except Exception as e: res['srcs'] = 'RAISE ' + exn_name(e)
+    # initial conditions and boundaries: only a KeyError is the bookkeeping's own; anything else (short primaries,
+    # missing centres, ...) leaves the piece uncompared
+    try:
+        with quiet(): eff = dat.effective_incons(None)
+    except Exception: return res
+    try:
+        with quiet(): ij = dat.initial_json(geo, eff, eosname, tracer)
+        res['init'] = init_line(ij.get('initial', {}), nund)
+    except KeyError: res['init'] = 'RAISE KeyError'
+    except Exception: pass
+    try:
+        with quiet(): bj = dat.boundaries_json(geo, eff, kw['atmos_volume'], eosname, 'xyz', tracer)
+        res['bdy'] = bdy_pairs(bj.get('boundaries', []))
+    except KeyError: res['bdy'] = 'RAISE KeyError'
+    except Exception: pass
     return res
